@@ -282,3 +282,19 @@ Section MA.
     - exact Hf.
   Qed.
 End MA.
+
+(* ---- the hypothesis is necessary: capture of a user variable named like a version ---- *)
+Open Scope string_scope.
+Definition ma_capture_body : list gassign :=
+  [ {| ga_var := "x"; ga_cond := CTrue; ga_default := "x"; ga_rhs := RDet (EConst (mkq 1 1)) |};
+    {| ga_var := "x"; ga_cond := CTrue; ga_default := "x"; ga_rhs := RDet (EAdd (EVar "x") (EVar "_x1")) |} ].
+Definition ma_capture_state : state := upd st0 "_x1" (mkq 7 1).
+(* `_x1 = 7; while true: x = 1; x = x + _x1`: the source body leaves x = 8, the transformed
+   body `_x1 = 1; x = _x1 + _x1` leaves x = 2 — from the SAME state, observing only x *)
+Theorem multi_assign_needs_wf :
+  wf_ma ma_capture_body = false /\
+  E (exec_gas no_law (multi_assign ma_capture_body) ma_capture_state) (fun s => s "x")
+  <> E (exec_gas no_law ma_capture_body ma_capture_state) (fun s => s "x").
+Proof.
+  split; [vm_compute; reflexivity|]. intros H. apply (f_equal qnum) in H. vm_compute in H. discriminate.
+Qed.
